@@ -10,11 +10,18 @@ package stat
 //@   assumed
 //@ func (n *BaseStatNode) GetMaxAvg(event) r
 //@   pure
-//@   assumed
+//@   props C08
+//@   objinv n != nil && n.metric != nil && n.intervalMs > 0 && viewOK(n.metric) && validEvent(event) && bucketsOK(n.metric.real.data, event)
 //@   ensures r >= 0.0
+//@   ensures[per-second-peak] r == R(n.metric.GetMaxOfSingleBucket(event)) * R(n.sampleCount) / R(n.intervalMs) * 1000.0
+//@   modifies nothing
 //@ func (n *BaseStatNode) AvgRT() r
 //@   pure
-//@   assumed
+//@   props C08
+//@   objinv n != nil && n.metric != nil
+//@   ensures[guarded] n.metric.GetSum(base.MetricEventComplete) <= 0 ==> r == 0.0
+//@   ensures[truncated-mean] n.metric.GetSum(base.MetricEventComplete) > 0 ==> r == R(n.metric.GetSum(base.MetricEventRt) / n.metric.GetSum(base.MetricEventComplete))
+//@   modifies nothing
 //@ func (n *BaseStatNode) MinRT() r
 //@   pure
 //@   assumed
